@@ -127,6 +127,15 @@ class WalletProp(BaseProp):
                     fv = None
                 try:
                     wo = BaseWallet.from_extended_key(xpub)
+                    for b in case.get("before", []):
+                        # another watch-only wallet is created after this one, used on the same sub-path, dropped and collected
+                        # before this one is used (object lifetimes are part of the history)
+                        import gc
+                        other = BaseWallet.from_extended_key(build_wallet(b["w"]).master.derive_path(list(b["export"])).extended_public_key(version=b["v"]))
+                        for _ in range(b.get("rounds", 1)):
+                            node_view(other, other.master.derive_path(list(case["sub"])))
+                        del other
+                        gc.collect()
                     ov = node_view(wo, wo.master.derive_path(list(case["sub"])))
                 except Exception:
                     ov = None
@@ -134,7 +143,20 @@ class WalletProp(BaseProp):
         if k == "ParCli":
             from props.c20 import run_main, build_argv
             v = dict(case["v"], paranoia=True)
-            code, out, err = run_main(build_argv(v))
+            if case.get("file"):
+                import tempfile, os, shutil
+                d = tempfile.mkdtemp(prefix="c15_")
+                try:
+                    fp = os.path.join(d, "wallet.json")
+                    code, out, err = run_main(build_argv(v, fp))
+                    try:
+                        out = out + "\n--file--\n" + open(fp).read()
+                    except Exception:
+                        pass
+                finally:
+                    shutil.rmtree(d, ignore_errors=True)
+            else:
+                code, out, err = run_main(build_argv(v))
             t = v.get("testnet", False)
             from btc_hd_wallet.paper_wallet import PaperWallet
             w = PaperWallet.from_mnemonic(v["secret"], v.get("password", ""), testnet=t)
